@@ -312,6 +312,12 @@ example : dumpAll [([], .bytes [97]), ([13, 10], .bytes [98]), ([10, 10], .null)
 /-- `IgnOk` is needed: an ignorable digit eats the length prefix -/
 example : (feed [49] {} [49, 58, 97, 44]).st = .failed := by decide +kernel
 
+/-- text that begins with U+FEFF (bytes EF BB BF) is ordinary text: neither `parse` nor the machine strips
+a "byte order mark" (an instance of `stream_agrees`; U+FEFF is a scalar value) -/
+example : wf .utf8 (.text [65279, 97]) = true
+    ∧ (feed [] {} (dump .utf8 (.text [65279, 97]))).out = [(.text [65279, 97], 7)]
+    ∧ parse .utf8 (dump .utf8 (.text [65279, 97])) = some (.text [65279, 97], []) := by decide +kernel
+
 /-- a tail beginning with a digit is not swallowed by the greedy SIZE of the previous message -/
 example : (feed [] {} (dump .utf8 (.bytes [120]) ++ [53])).out = [(.bytes [120], 4)] := by decide +kernel
 
